@@ -124,6 +124,33 @@ func applyEdit(bm *bondmachine.Bondmachine, e string) (bool, error) {
 		bm.Domains = append(bm.Domains, m)
 		_, err := bm.Add_processor(len(bm.Domains) - 1)
 		return err != nil, nil
+	case "apr":
+		// a processor built from an EXISTING domain of that shape when there is one (so that the
+		// number of processors and the number of domains drift apart), else like "ap"
+		n, mm := uint8(atoi(f[1])), uint8(atoi(f[2]))
+		for d, dom := range bm.Domains {
+			if dom.N == n && dom.M == mm {
+				_, err := bm.Add_processor(d)
+				return err != nil, nil
+			}
+		}
+		m := new(procbuilder.Machine)
+		m.Arch.Rsize = bm.Rsize
+		m.Arch.Modes = []string{"ha"}
+		m.Arch.N = n
+		m.Arch.M = mm
+		bm.Domains = append(bm.Domains, m)
+		_, err := bm.Add_processor(len(bm.Domains) - 1)
+		return err != nil, nil
+	case "adom":
+		// a domain nobody instantiates (yet): no topology effect
+		m := new(procbuilder.Machine)
+		m.Arch.Rsize = bm.Rsize
+		m.Arch.Modes = []string{"ha"}
+		m.Arch.N = uint8(atoi(f[1]))
+		m.Arch.M = uint8(atoi(f[2]))
+		bm.Domains = append(bm.Domains, m)
+		return false, nil
 	case "ab":
 		bm.Add_bond([]string{f[1], f[2]})
 		return false, nil
@@ -205,7 +232,18 @@ func genHistory(r *common.Rng, maxlen int) []string {
 			s.slots++
 		case k < 36:
 			a, b := r.Intn(4), r.Intn(4)
-			es = append(es, fmt.Sprintf("ap %d %d", a, b))
+			op := "ap"
+			if r.Chance(1, 3) {
+				op = "apr"
+				if len(s.procs) > 0 && r.Bool() { // the shape of an earlier processor: its domain is reused
+					q := s.procs[r.Intn(len(s.procs))]
+					a, b = q[0], q[1]
+				}
+			}
+			if r.Chance(1, 8) {
+				es = append(es, fmt.Sprintf("adom %d %d", r.Intn(4), r.Intn(4)))
+			}
+			es = append(es, fmt.Sprintf("%s %d %d", op, a, b))
 			s.procs = append(s.procs, [2]int{a, b})
 			s.slots += a
 		case k < 62:
@@ -249,6 +287,7 @@ func genHistory(r *common.Rng, maxlen int) []string {
 var alphabet = []string{
 	"ai", "ao", "ap 1 1", "ap 2 1", "di 0", "di 1", "do 0", "do 1",
 	"ab o0 i0", "ab o1 i1", "ab p0i0 i1", "ab p0o0 o1", "ab p1i1 p0o0", "db 0", "db 1", "at i0 p0o0",
+	"apr 1 1", "adom 2 1",
 }
 
 func exhaustive(depth int) int {
